@@ -24,6 +24,8 @@ func main() {
 		cmdCheck(os.Args[2:])
 	case "calls":
 		cmdCalls(os.Args[2:])
+	case "sweep":
+		cmdSweep(os.Args[2:])
 	default:
 		fmt.Fprintln(os.Stderr, "unknown command", os.Args[1])
 		os.Exit(2)
